@@ -1869,6 +1869,8 @@ pub async fn run_conn(ctx: Rc<Ctx>, cmds: Vec<Value>) {
             "cap" => {
                 // bytes the endpoint may still write to the transport (0 = stalled)
                 let n = c.get("n").and_then(Value::as_i64).unwrap_or(BIG as i64) as usize;
+                // (n: what the transport still takes; -1 = everything again)
+                ctx.emit(Ev::new("cap").n(c.get("n").and_then(Value::as_i64).unwrap_or(-1)));
                 peer.io.remote_buffer_cap(n);
             }
             "peer_close" => {
